@@ -855,8 +855,14 @@ class Walk:
 
     def __init__(self, rng, name, cfg=None, recv_max=None, max_pkt=None, clones=1, sei=None, weights=None,
                  allow_hold=False, allow_drop=False, allow_poll=False, nonconformant=0.0, subid_modes=None, snap=True,
-                 via_auth=None, batch=0.0, coalesce=0.35, connect_opts=True):
+                 via_auth=None, batch=0.0, coalesce=0.35, connect_opts=True, rich=0.0):
         self.rng = rng
+        self.rich = rich
+        self.max_pkt = max_pkt
+        if rich and cfg is None and rng.random() < rich:
+            # executor and transport behaviour are not the client's to choose: any mix of them
+            cfg = ' '.join(x for x in [rng.choice(['', '', 'exec=sweep']), rng.choice(['', '', 'rd=fill']),
+                                       rng.choice(['', '', 'rdp=1']), rng.choice(['', '', 'wr=one', 'wr=pend', 'wr=pendone'])] if x) or None
         self.s = Sess(name, cfg)
         ps = []
         self.R = recv_max if recv_max is not None else 65535
@@ -876,6 +882,14 @@ class Walk:
                          ('cs', lambda r: r.random() < 0.5), ('un', lambda r: b'u'), ('pw', lambda r: b'p')]:
                 if rng.random() < 0.25:
                     fields.append((k, g(rng)))
+        if rich:
+            # what else a broker may say in CONNACK (the client keeps no state for any of these)
+            for pid in (18, 19, 26, 28, 31, 34, 36, 37, 40, 42):     # (41 = 0 trips the documented assertion: own family)
+                if rng.random() < rich * 0.3:
+                    ps.append((pid, prop_value(rng, pid)))
+            if rng.random() < rich * 0.3:
+                ps.append((38, (b'k', b'v')))
+            rng.shuffle(ps)
         self.s.connect(fields, ps, via_auth=via_auth if via_auth is not None else rng.random() < 0.25,
                        sp=1 if rng.random() < 0.3 else 0)
         for h in range(1, clones):
@@ -899,6 +913,12 @@ class Walk:
 
     def h(self):
         return self.rng.choice(self.s.handles)
+
+    def maybe_hold(self, op):
+        """the application's executor is slow to poll an operation's future again after its first poll"""
+        if self.rich and not self.in_batch and op in self.s.live_ops and self.rng.random() < self.rich * 0.15:
+            self.s.add(f'HOLD op{op}')
+            self.held.add(op)
 
     def late_ack(self):
         """the broker answers an operation whose future the application has dropped (it cannot know)"""
@@ -985,6 +1005,10 @@ class Walk:
         if k in ('pub0', 'pub1', 'pub2'):
             qos = int(k[3])
             f = [('p', pick_str(rng))] if rng.random() < 0.7 else []
+            if self.rich and self.max_pkt is None and rng.random() < self.rich:
+                f = [(k2, g(rng)) for k2, g in PUB_OPTS if rng.random() < 0.35]
+                f += [('up', (pick_str(rng), pick_str(rng, True))) for _ in range(rng.choice([0, 0, 1, 2]))]
+                rng.shuffle(f)
             op, pid = s.publish(qos, self.h(), f, rng.choice(TOPICS))
             if qos == 0:
                 s.live_ops.pop(op)
@@ -992,17 +1016,32 @@ class Walk:
                 s.live_ops.pop(op)          # refused with QuotaExceeded, nothing written
             else:
                 self.outstanding += 1
+                self.maybe_hold(op)
         elif k == 'pubbig':
             # far above the announced Maximum Packet Size (walks with max_pkt use 64): refused, nothing written, no slot taken
             qos = rng.choice([0, 1, 2])
             op, pid = s.publish(qos, self.h(), [('p', bytes(100 + rng.randrange(50)))], rng.choice(TOPICS))
             s.live_ops.pop(op)       # (its packet identifier is consumed all the same: Sess.publish allocated it)
         elif k == 'sub':
-            s.subscribe([(rng.choice(TOPICS), '2000')], self.h())
+            nf = rng.choice([1, 2, 3, 5]) if self.rich and self.max_pkt is None and rng.random() < self.rich else 1
+            fl = [(rng.choice(TOPICS), rng.choice(['2000', '2000', '0000', '1000', '2100', '1010', '0111', '2002']) if nf > 1 else '2000')
+                  for _ in range(nf)]
+            up = [(b'k', b'v')] if nf > 1 and rng.random() < 0.3 else ()
+            op, _, _ = s.subscribe(fl, self.h(), up)
+            s.live_ops[op]['nf'] = nf
+            self.maybe_hold(op)
         elif k == 'unsub':
-            s.unsubscribe([rng.choice(TOPICS)], self.h())
+            nf = rng.choice([1, 2, 3]) if self.rich and self.max_pkt is None and rng.random() < self.rich else 1
+            op, _ = s.unsubscribe([rng.choice(TOPICS) for _ in range(nf)], self.h())
+            s.live_ops[op]['nf'] = nf
+            self.maybe_hold(op)
         elif k == 'ping':
-            s.ping(self.h())
+            self.maybe_hold(s.ping(self.h()))
+        elif k == 'release':
+            if self.held:
+                o = rng.choice(sorted(self.held))
+                self.held.discard(o)
+                s.add(f'RELEASE op{o}')
         elif k == 'ack':
             if self.allow_drop and rng.random() < 0.35 and self.late_ack():
                 return
@@ -1054,11 +1093,11 @@ class Walk:
             s.live_ops.pop(op)
             self.outstanding -= 1
         elif kind == 'suback':
-            s.feed(m.suback(pid, [rng.choice([0, 1, 2, 0x80])], rand_props(rng, [31], p=0.3)))
+            s.feed(m.suback(pid, [rng.choice([0, 1, 2, 0x80, 0x87, 0x97]) for _ in range(d.get('nf', 1))], rand_props(rng, [31], p=0.3)))
             s.live_ops.pop(op)
             s.rsps.add(op)
         elif kind == 'unsuback':
-            s.feed(m.unsuback(pid, [rng.choice(m.UNSUBACK_REASONS)], rand_props(rng, [31], p=0.3)))
+            s.feed(m.unsuback(pid, [rng.choice(m.UNSUBACK_REASONS) for _ in range(d.get('nf', 1))], rand_props(rng, [31], p=0.3)))
             s.live_ops.pop(op)
         elif kind == 'pingresp':
             s.feed(m.pingresp())
@@ -1081,6 +1120,9 @@ class Walk:
         elif mode == 'unreg':
             ps = [(11, 9999)]
         dup = rng.choice([0, 1]) if qos else 0
+        if self.rich and rng.random() < self.rich:
+            ps = ps + rand_props(rng, [1, 2, 3, 8, 9], p=0.35)
+            rng.shuffle(ps)
         if qos == 2:
             self.inq2.add(pid)
         s.feed(m.publish(rng.choice(TOPICS), pick_str(rng), qos, pid, dup, rng.choice([0, 1]), ps))
@@ -1093,6 +1135,7 @@ class Walk:
         kind, o = rng.choice(cands)
         s.add(f'DROP {kind}{o}')
         if kind == 'op':
+            self.held.discard(o)
             d = s.live_ops.pop(o)
             if d['kind'] == 'subscribe':
                 pass
@@ -1107,7 +1150,11 @@ class Walk:
     def run(self, n):
         for _ in range(n):
             self.step()
-        return coalesce_feeds(self.rng, self.s.script(), self.coalesce)
+        for o in sorted(self.held):
+            self.s.add(f'RELEASE op{o}')
+        self.held.clear()
+        sc = coalesce_feeds(self.rng, self.s.script(), self.coalesce)
+        return cut_feeds(self.rng, sc, 0.15 * self.rich) if self.rich else sc
 
 
 def coalesce_feeds(rng, script, p):
@@ -1123,6 +1170,24 @@ def coalesce_feeds(rng, script, p):
             out[-1] = out[-1] + l[5:]
         else:
             out.append(l)
+    return (name, out)
+
+
+def cut_feeds(rng, script, p):
+    """a transport read ends wherever it likes: FEED lines (after the handshake) are delivered in pieces with probability p"""
+    name, lines = script
+    out = []
+    seen_run = False
+    for l in lines:
+        if l == 'RUN':
+            seen_run = True
+        if seen_run and l.startswith('FEED ') and 'cuts=' not in l and rng.random() < p:
+            n = (len(l) - 5) // 2
+            if n >= 2:
+                k = rng.choice([1, 1, 2, 3, n - 1])
+                cuts = sorted(rng.sample(range(1, n), min(k, n - 1)))
+                l = l + ' cuts=' + ','.join(map(str, cuts))
+        out.append(l)
     return (name, out)
 
 
@@ -1147,10 +1212,12 @@ def fam_common(rng, tier, prefix, n_quick=30, n_thorough=800, hold=True, tail=No
     out = []
     for i in range(n_quick if tier == 'quick' else n_thorough * DEPTH):
         mp = rng.choice([None, None, 64])
-        wts = dict(pub0=2, pub1=4, pub2=4, sub=2, unsub=1, ping=1, ack=9, inbound=5, pubrel=2, stream=2, pubbig=2 if mp else 0)
+        wts = dict(pub0=2, pub1=4, pub2=4, sub=2, unsub=1, ping=1, ack=9, inbound=5, pubrel=2, stream=2, pubbig=2 if mp else 0,
+                   release=1)
         w = Walk(rng, f'{prefix}-common-{i}', recv_max=rng.choice([None, None, 1, 2, 5]), max_pkt=mp,
                  clones=rng.choice([1, 2, 3]), sei=rng.choice([None, 0, 100]), weights=wts,
-                 allow_drop=rng.random() < 0.5, allow_poll=rng.random() < 0.3, batch=0.15 if hold else 0.0)
+                 allow_drop=rng.random() < 0.5, allow_poll=rng.random() < 0.3, batch=0.15 if hold else 0.0,
+                 rich=rng.choice([0.0, 0.3, 0.7]))
         sc = w.run(rng.choice([15, 40, 90]))
         if tail:
             sc = (sc[0], sc[1] + tail)
